@@ -14,7 +14,7 @@
    and one user cset u1 that can be bound as a generator over the preserved cset, as an alias of the
    install/uninstall cset, preserved or not.                                                        *)
 EXTENDS MergeEngine, TLC
-CONSTANTS Mode, MaxSteps, MaxReg
+CONSTANTS RunModes, MaxSteps, MaxReg
 
 MCTrigs == {"ta", "tb", "tc", "td", "te"}
 MCPrio  == [t \in MCTrigs |-> CASE t = "tc" -> 10 [] t = "td" -> 90 [] OTHER -> 50]
@@ -35,19 +35,21 @@ MCReq == [t \in MCTrigs |->
      [] t = "td" -> [kind |-> "tuple", names |-> <<"install">>, bymode |-> NoBy]
      [] OTHER    -> [kind |-> "tuple", names |-> <<"u1">>, bymode |-> NoBy]]
 MCSupp == [t \in MCTrigs |-> t \in {"ta", "tc", "te"}]
-MainCset == IF Mode = "uninstall" THEN "old_cset" ELSE "new_cset"
-WorkCset == IF Mode = "uninstall" THEN "uninstall" ELSE "install"
+MainCset(m) == IF m = "uninstall" THEN "old_cset" ELSE "new_cset"
+WorkCset(m) == IF m = "uninstall" THEN "uninstall" ELSE "install"
+ByMode(f(_)) == [m \in Modes |-> f(m)]
+Same(n) == [m \in Modes |-> n]
 MCAct == [t \in MCTrigs |->
-   CASE t = "tb" -> [k |-> "read", n |-> "u1", t |-> ""]
-     [] t = "tc" -> [k |-> "replace", n |-> MainCset, t |-> ""]
-     [] t = "td" -> [k |-> "register", n |-> "", t |-> "tc"]
-     [] OTHER    -> [k |-> "none", n |-> "", t |-> ""]]
+   CASE t = "tb" -> [k |-> "read", n |-> Same("u1"), t |-> ""]
+     [] t = "tc" -> [k |-> "replace", n |-> ByMode(MainCset), t |-> ""]
+     [] t = "td" -> [k |-> "register", n |-> Same("nosuch"), t |-> "tc"]
+     [] OTHER    -> [k |-> "none", n |-> Same("nosuch"), t |-> ""]]
 MCUserNames == {"u1"}
 MCPlugins == <<>>
 \* the bindings a caller may give u1
-MCUserDefs == {[n |-> "u1", d |-> Gen(<<MainCset>>), pres |-> FALSE],
-               [n |-> "u1", d |-> Gen(<<MainCset>>), pres |-> TRUE],
-               [n |-> "u1", d |-> Ali(WorkCset), pres |-> FALSE]}
+MCUserDefs(m) == {[n |-> "u1", d |-> Gen(<<MainCset(m)>>), pres |-> FALSE],
+                  [n |-> "u1", d |-> Gen(<<MainCset(m)>>), pres |-> TRUE],
+                  [n |-> "u1", d |-> Ali(WorkCset(m)), pres |-> FALSE]}
 MCKinds == {"ok", "plain", "modify", "runtime"}
 MCFmtTrigs == <<"tc">>
 MCDomTrigs == <<"ta", "tb", "td">>
@@ -63,15 +65,17 @@ TotalReg(s) == LET RECURSIVE Sum(_)
 Registered(s, t) == \E h \in DOMAIN s.hooks : \E k \in DOMAIN s.hooks[h] : s.hooks[h][k] = t
 
 (* ---------------- engine level ---------------- *)
-Init == /\ eng = New(Mode) /\ fail = AllOk /\ last = L("new", "", "ok") /\ steps = 0
-        /\ op = OpNew(Mode) /\ env = EnvOk
+Init == \E m \in RunModes :
+        /\ eng = New(m) /\ fail = AllOk /\ last = L("new", "", "ok") /\ steps = 0
+        /\ op = OpNew(m) /\ env = EnvOk
+Mode == eng.mode
 Step == steps < MaxSteps /\ steps' = steps + 1 /\ UNCHANGED <<op, env>>
 Reg(t) == /\ Step /\ TotalReg(eng) < MaxReg
           /\ LET r == Register(eng, t) IN eng' = r.s /\ last' = L("register", t, r.res)
           /\ UNCHANGED fail
 Add(u) == /\ Step
           /\ LET s2 == AddCset(eng, u.n, u.d, u.pres) IN
-             /\ DepsDefined(s2) /\ Acyclic(s2) /\ s2 # eng
+             /\ s2 # eng
              /\ eng' = s2
           /\ last' = L("addcset", u.n, "ok") /\ UNCHANGED fail
 Repl(n) == /\ Step /\ n \in eng.pres
@@ -84,9 +88,9 @@ Hook(h) == /\ Step
 SetFail(t, k) == /\ Step /\ Registered(eng, t) /\ fail[t] # k
                  /\ fail' = [fail EXCEPT ![t] = k] /\ last' = L("setfail", t, k) /\ UNCHANGED eng
 Next == \/ \E t \in Trigs : Reg(t)
-        \/ \E u \in MCUserDefs : Add(u)
-        \/ \E n \in {MainCset, "u1"} : Repl(n)
-        \/ \E n \in {WorkCset, "u1"} : PeekA(n)
+        \/ \E u \in MCUserDefs(Mode) : Add(u)
+        \/ \E n \in {MainCset(Mode), "u1"} : Repl(n)
+        \/ \E n \in {WorkCset(Mode), "u1"} : PeekA(n)
         \/ \E h \in HookSet(Mode) : Hook(h)
         \/ \E t \in Trigs, k \in MCKinds : SetFail(t, k)
 SpecE == Init /\ [][Next]_vars
@@ -99,13 +103,13 @@ InvBracket == \A h \in HookSet(Mode) : LET r == RunOf(h) IN
               /\ Bracketed(r.log) /\ PhaseScoped(r.log) /\ StopsAtFailure(r.log, fail, r.res) /\ Notices(r.log, fail)
 InvLazy == \A h \in HookSet(Mode) : LET r == RunOf(h) IN
               /\ AskedOnly(eng, r.log) /\ OncePerRun(r.log) /\ ComputedThisRun(eng, r.log) /\ PreservedKept(eng, r.log)
+InvRun == \A h \in HookSet(Mode) : LET r == RunOf(h) IN RunClauses(eng, fail, h, r.log, r.res) = {}
 InvCoherent == Coherent(eng)
 InvPreservedOnce == PreservedOnce(eng)
 \* a trigger sits only in hooks it named, in a mode it named, with csets the engine knows
 InvRegistered == \A h \in DOMAIN eng.hooks : \A k \in DOMAIN eng.hooks[h] :
                    LET t == eng.hooks[h][k] IN
                    /\ Mode \in TModes[t] /\ \E j \in DOMAIN THooks[t] : THooks[t][j] = h /\ ~UnknownCset(eng, t)
-InvGraph == DepsDefined(eng) /\ Acyclic(eng)
 
 ReplacedBy(n) == \/ last'.op = "replace" /\ last'.arg = n
                  \/ last'.op = "hook" /\ \E k \in DOMAIN RunOf(last'.arg).log :
@@ -128,9 +132,10 @@ FinishOf == Finish(op, fail, env, MCFmtTrigs, MCDomTrigs)
 OFinish == /\ OStep /\ ~AllDone(op)
            /\ LET r == FinishOf IN op' = r.s /\ last' = L("finish", "", r.res)
            /\ UNCHANGED <<fail, env>>
-OSetFail(t, k) == /\ OStep /\ fail[t] # k /\ fail' = [fail EXCEPT ![t] = k] /\ last' = L("setfail", t, k)
+\* (one faulty trigger and one faulty format / repository call at a time, any sequence of them over the retries)
+OSetFail(t, k) == /\ OStep /\ fail[t] # k /\ (\A u \in Trigs \ {t} : fail[u] = "ok") /\ fail' = [fail EXCEPT ![t] = k] /\ last' = L("setfail", t, k)
                   /\ UNCHANGED <<op, env>>
-OSetEnv(c, v) == /\ OStep /\ env[c] # v /\ env' = [env EXCEPT ![c] = v] /\ last' = L("setenv", c, v)
+OSetEnv(c, v) == /\ OStep /\ env[c] # v /\ (\A d \in EnvCalls \ {c} : env[d] = "ok") /\ env' = [env EXCEPT ![c] = v] /\ last' = L("setenv", c, v)
                  /\ UNCHANGED <<op, fail>>
 ONext == \/ OFinish
          \/ \E t \in {"ta", "tb", "tc", "td"}, k \in {"ok", "plain", "modify"} : OSetFail(t, k)
